@@ -4,8 +4,11 @@ The statement of each property theorem is the printed type of the proved lemma, 
 import os, re, subprocess, sys
 COQ = os.path.join(os.path.dirname(os.path.dirname(os.path.abspath(__file__))), "coq")
 
+PRE = {}   # property id -> extra imports (only C05's real-analysis instance needs any)
+CUR = [""]
+
 def check_type(mods, name):
-    src = "From Coq Require Import List ZArith QArith Qcanon Ring_theory Field_theory Permutation Sorted.\nImport ListNotations.\n" + \
+    src = CUR[0] + "From Coq Require Import List ZArith QArith Qcanon Ring_theory Field_theory Permutation Sorted.\nImport ListNotations.\n" + \
           "".join(f"From CK Require Import {m}.\n" for m in mods) + \
           "Close Scope Qc_scope. Close Scope Q_scope. Close Scope Z_scope. Open Scope nat_scope.\nSet Printing Width 110.\n" + f"Check {name}.\n"
     open("/tmp/_chk.v", "w").write(src)
@@ -16,8 +19,11 @@ def check_type(mods, name):
     return m.group(1).strip()
 
 def gen(pid, title, mods, items):
+    CUR[0] = PRE.get(pid, "")
     lines = [f"(* {pid} — {title}", "   Property theorems only: each is closed by `exact <lemma>`; proofs live in the imported files. *)",
              "From Coq Require Import List ZArith QArith Qcanon Ring_theory Field_theory Permutation Sorted.", "Import ListNotations."]
+    if CUR[0]:
+        lines.insert(2, CUR[0].rstrip("\n"))
     lines += [f"From CK Require Import {m}." for m in mods]
     lines += ["Close Scope Qc_scope. Close Scope Q_scope. Close Scope Z_scope. Open Scope nat_scope.", ""]
     for name, thm, comment in items:
@@ -238,6 +244,24 @@ TABLE["C02"][2].extend([
    ("log_softmax_fuse", "C02_rule_log_softmax", "apply_log_softmax: log o softmax = log_softmax over any structure with exp / log / division satisfying log(x/y) = log x - log y on positives and log(exp x) = x"),
 ])
 TABLE["C02"] = (TABLE["C02"][0], TABLE["C02"][1] + ["Base", "Circ", "Algebra", "Optim"], TABLE["C02"][2])
+PRE["C05"] = "From Coq Require Import Reals.\nFrom Coquelicot Require Import Coquelicot.\n"
+TABLE["C05"][2].extend([
+   ("differentiate_correct_total", "C05_differentiate_total", "special case DF := all functions (the unconditional rules of the first version of this theorem)"),
+   ("differentiate_real_is_derive", "C05_differentiate_real", "INSTANCE over the real numbers (Coquelicot): for every ok circuit over R whose input functions are differentiable in each variable, block (i,t) of the differentiated circuit IS the partial derivative (is_derive: existence included) w.r.t. variable nth t vars of unit k of node i; uses the standard library's real-number axioms and functional extensionality (named in the trusted base)"),
+   ("differentiate_real", "C05_differentiate_real_Derive", "... stated with Coquelicot's total Derive"),
+   ("eval_differentiable", "C05_circuits_differentiable", "every unit of every node of such a circuit is differentiable in each variable"),
+   ("poly_is_derive", "C05_polynomial_input_instance", "non-vacuity: a quadratic polynomial input function meets the hypotheses, with derivative a1 + 2 a2 x"),
+])
+TABLE["C05"] = (TABLE["C05"][0], TABLE["C05"][1] + ["DiffReal"], TABLE["C05"][2])
+TABLE["C16"][2].extend([
+   ("tree_rg_valid", "C16_tree_valid", "EVERY tree-shaped region graph (recursive splitting of a scope into >= 2 pairwise disjoint non-empty parts: RandomBinaryTree with one repetition, LinearTree, QuadTree, tree2rg / Chow-Liu) is valid, for all trees"),
+   ("tree_rg_valid_iff", "C16_tree_valid_iff", "validity of a tree-shaped graph is exactly: leaves non-empty, no empty split, siblings pairwise disjoint"),
+   ("tree_rg_sd", "C16_tree_structured_decomposable", "... and structured-decomposable (needs >= 2 children per split: RGTree.unary_ex is the counterexample otherwise)"),
+   ("multi_rg_valid", "C16_repetitions_valid", "several repetitions sharing only the root region (num_repetitions > 1) are valid (in general not structured-decomposable: RGTree.two_reps_not_sd)"),
+   ("rg_sd_facts_perm", "C16_sd_numbering_independent", "the structured-decomposability flag depends only on the multiset of scope-level partitions, not on the numbering of regions or the order of partitions"),
+   ("tree_rg_topological", "C16_tree_topological", "partitions of a tree-shaped graph refer to later regions only (acyclic)"),
+])
+TABLE["C16"] = (TABLE["C16"][0], TABLE["C16"][1] + ["RGTree"], TABLE["C16"][2])
 
 if __name__ == "__main__":
     for pid in (sys.argv[1:] or TABLE):
